@@ -15,6 +15,8 @@ git checkout -q -- src
 CARGO_NET_OFFLINE=true cargo test --offline --test seeded_demo > /tmp/confirm2_$$.log 2>&1; without=$?
 rm -rf tests; git checkout -q -- .
 ok=NO
-if echo "$suite" | grep -q "70 passed; 0 failed" && echo "$suite" | grep -q "5 passed; 0 failed" && [ $with -ne 0 ] && [ $without -eq 0 ]; then ok=YES; fi
+# the unedited suite (70 unit tests, 5 doctests) passes; a change may bring further tests of its own
+units=$(echo "$suite" | grep -o "[0-9]* passed; 0 failed" | head -1 | cut -d" " -f1)
+if [ "${units:-0}" -ge 70 ] && echo "$suite" | grep -q "5 passed; 0 failed" && ! echo "$suite" | grep -q "[1-9][0-9]* failed" && [ $with -ne 0 ] && [ $without -eq 0 ]; then ok=YES; fi
 echo "$(basename $D) confirmed=$ok suite=[$suite] demo_with_change_exit=$with demo_without_exit=$without"
 rm -f /tmp/confirm_$$.log /tmp/confirm2_$$.log
